@@ -24,10 +24,13 @@ import Pog.Model.Stream
     * `groupEndpoints` = `EndpointsEmitter.emit` (emitters/endpoints_emitter.py:172-219): ALL tags, key
                          `normalize_tag_key` (an operation is appended once per key), canonical tag `max(candidates, key=tag_score)`.
     * `tagMapVisitor`  = the same map recomputed by `ClientVisitor.visit` (visit/client_visitor.py:26-63).
-    * `groupMocks`     = `MocksEmitter._group_operations_by_tag` + the loop of `emit`
-                         (emitters/mocks_emitter.py:46-70,113-121): FIRST tag only, RAW tag string.
+    * `groupMocksRaw` / `groupMocks` = `MocksEmitter._group_operations_by_tag` + the loop of `emit` (emitters/mocks_emitter.py;
+                         F23 repaired): the two dicts of the endpoints emitter once more (ALL tags, normalised key), the canonical
+                         tag `max(candidates, key=_tag_score)` (a third copy of `tag_score`), groups in the order `sorted(keys)`.
+                         Before the repair: FIRST tag only, RAW tag string.
     * `clientProps` / `mockClientProps` = the property names of `APIClient` (`for key in sorted(tag_map)`, modelled by the
-                         stable insertion sort `sortKeys`) / `MockAPIClient` (the mock emitter's `tag_tuples`).
+                         stable insertion sort `sortKeys`) / `MockAPIClient` (the mock emitter's `tag_tuples`, in the order of
+                         its groups).
 -/
 namespace Pog
 
@@ -483,27 +486,33 @@ def groupEndpoints (u : UInfo) (ops : List TagOp) : List TagGroup :=
   (keyToPairs u ops).map fun e =>
     mkGroup u e.1 ((pyMaxTag u (e.2.map (·.1))).getD kDefaultTag) (e.2.filterMap (·.2))
 
-/-- `operation.tags[0] if operation.tags else "default"` -/
-def firstTag (op : TagOp) : Str := op.tags.head?.getD kDefaultTag
-
-/-- `MocksEmitter._group_operations_by_tag` -/
-def mockTagToOps (ops : List TagOp) : List (Str × List Str) :=
-  ops.foldl (fun d op => tagAddMulti d (firstTag op) op.id) []
-
-/-- `MocksEmitter.emit`: `canonical_tag_name = tag if tag else "default"`, names from the RAW tag. -/
-def groupMocks (u : UInfo) (ops : List TagOp) : List TagGroup :=
-  (mockTagToOps ops).map fun e => mkGroup u e.1 (if e.1.isEmpty then kDefaultTag else e.1) e.2
-
-/-- (module, class, operation ids) per tag client — file `endpoints/<module>.py` resp.
-    `mocks/endpoints/mock_<module>.py`, class `<cls>` resp. `Mock<cls>`. -/
-def surfaces (gs : List TagGroup) : List (Str × Str × List Str) := gs.map fun g => (g.module, g.cls, g.ops)
-
 /-- `sorted(keys)` as a stable insertion sort (structural, so that closed instances evaluate by `decide`). -/
 def insertKey (k : Str) : List Str → List Str
   | [] => [k]
   | x :: xs => if pyStrLe k x then k :: x :: xs else x :: insertKey k xs
 
 def sortKeys (l : List Str) : List Str := l.foldr insertKey []
+
+/-- `MocksEmitter._group_operations_by_tag` + the loop of `emit` (F23 repaired): `ops_by_key` / `candidates_by_key` are built by
+    the loop of the endpoints emitter (`keyToOps`, `keyToCands`); then
+    `[(max(candidates_by_key[key], key=_tag_score), ops_by_key[key]) for key in sorted(ops_by_key)]`, and `emit` names module and
+    class from that canonical tag.  `none` = `candidates_by_key[key]` raised `KeyError` or `max([])` raised `ValueError`. -/
+def groupMocksRaw (u : UInfo) (ops : List TagOp) : Option (List TagGroup) :=
+  let k2o := keyToOps u ops
+  let k2c := keyToCands u ops
+  (sortKeys (k2o.map (·.1))).mapM fun k =>
+    (tagDictGet k2c k).bind fun cands => (pyMaxTag u cands).bind fun c =>
+      (tagDictGet k2o k).map fun os => mkGroup u k c os
+
+/-- The same, total: the groups of the endpoints emitter, taken in the order of their keys
+    (`Pog.groupMocksRaw_eq` : `groupMocksRaw u ops = some (groupMocks u ops)`). -/
+def groupMocks (u : UInfo) (ops : List TagOp) : List TagGroup :=
+  let gs := groupEndpoints u ops
+  (sortKeys (gs.map (·.key))).filterMap fun k => gs.find? (fun g => g.key == k)
+
+/-- (module, class, operation ids) per tag client — file `endpoints/<module>.py` resp.
+    `mocks/endpoints/mock_<module>.py`, class `<cls>` resp. `Mock<cls>`. -/
+def surfaces (gs : List TagGroup) : List (Str × Str × List Str) := gs.map fun g => (g.module, g.cls, g.ops)
 
 /-- Property names of `APIClient`: `for key in sorted(tag_map)` → module name of `tag_map[key]`, with the
     visitor's own `tag_map` (`none` = its `max` raised). -/
